@@ -580,12 +580,12 @@ func (v *PacketDslVisitorImpl) VisitMatchPair(ctx *gen.MatchPairContext) interfa
 	val := ctx.IDENTIFIER().GetText()
 	var key string
 	if ctx.DIGITS() != nil {
-		key = ctx.DIGITS().GetText()
+		key = decimalKey(ctx.DIGITS().GetText())
 	} else if ctx.STRING() != nil {
 		key = ctx.STRING().GetText()
 	} else if ctx.List() != nil {
 		for _, k := range ctx.List().AllDIGITS() {
-			pairs = append(pairs, model.MatchPair{Key: k.GetText(), Value: val, Line: k.GetSymbol().GetLine(), Column: k.GetSymbol().GetTokenSource().GetCharPositionInLine()})
+			pairs = append(pairs, model.MatchPair{Key: decimalKey(k.GetText()), Value: val, Line: k.GetSymbol().GetLine(), Column: k.GetSymbol().GetTokenSource().GetCharPositionInLine()})
 		}
 		for _, k := range ctx.List().AllSTRING() {
 			pairs = append(pairs, model.MatchPair{Key: k.GetText(), Value: val, Line: k.GetSymbol().GetLine(), Column: k.GetSymbol().GetTokenSource().GetCharPositionInLine()})
@@ -594,6 +594,17 @@ func (v *PacketDslVisitorImpl) VisitMatchPair(ctx *gen.MatchPairContext) interfa
 	}
 
 	return append(pairs, model.MatchPair{Key: key, Value: val, Line: ctx.GetStart().GetLine(), Column: ctx.GetStart().GetTokenSource().GetCharPositionInLine()})
+}
+
+// decimalKey spells an integer match key without leading zeros. The key text is printed verbatim
+// into every target: `010` is 8 in Go, Java and C++, 10 in Rust and a syntax error in Python, and
+// `009` is not a number in any of them; the DSL's numbers are decimal.
+func decimalKey(digits string) string {
+	trimmed := strings.TrimLeft(digits, "0")
+	if trimmed == "" {
+		return "0"
+	}
+	return trimmed
 }
 
 // VisitRefMetaDataDeclaration handles reference metadata declarations.
